@@ -34,6 +34,9 @@ G_RetryWhileOtherRuns == \E s \in Mine(pods) : s[2] > 0 /\ Alive(pods[s]) /\ \E 
 G_UnrecordedNextToSuccess == \E s \in Slots : Unrecorded(s) /\ Alive(pods[s]) /\ ~pass.busy
                                 /\ \E t \in Slots : job.refs[t].ex /\ pods[t].ex /\ pods[t].mine /\ pods[t].ph = "S" /\ Strategy = "AnySuccessful"
 
+\* the Job has an admission error (a task was refused for good), another task of it is alive, and a kill deadline lies ahead
+G_RefusedWithLiveKillAhead == job.ex /\ job.adm /\ ~job.del /\ job.kill > now /\ ~pass.busy /\ \E s \in Mine(pods) : Alive(pods[s]) /\ pods[s].dl = 0
+
 Emit(i, name, G) == ~G \/ TLCGet(i) >= K \/ (TLCSet(i, TLCGet(i) + 1) /\ PrintT(<<"SCHED", ToJson(sched), name>>))
 Goal1 == Emit(1, "UnrecordedDecided", G_UnrecordedDecided)
 Goal2 == Emit(2, "MarkedThenSucceeded", G_MarkedThenSucceeded)
@@ -41,8 +44,9 @@ Goal3 == Emit(3, "KillMidPass", G_KillMidPass)
 Goal4 == Emit(4, "FinishedWithLive", G_FinishedWithLive)
 Goal5 == Emit(5, "DeletingAfterCrash", G_DeletingAfterCrash)
 Goal7 == Emit(7, "UnrecordedNextToSuccess", G_UnrecordedNextToSuccess)
+Goal8 == Emit(8, "RefusedWithLiveKillAhead", G_RefusedWithLiveKillAhead)
 Goal6 == Emit(6, "RetryWhileOtherRuns", G_RetryWhileOtherRuns)
 Stop == \E i \in Goals : TLCGet(i) < K
-GInit == SInit /\ \A i \in 1..7 : TLCSet(i, 0)
+GInit == SInit /\ \A i \in 1..8 : TLCSet(i, 0)
 GSpec2 == GInit /\ [][GNext]_svars
 ====
